@@ -231,14 +231,16 @@ PLAN['C19'] = {
 del NOT_APPLICABLE['C19']
 
 PLAN['C15'] = {
-    'level': 'exploration',
-    'technique': 'bounded native contract runner with an independent decoder/interpreter written from the bytecode module documentation; register/memory operand bounds of every emitted RegOp proved in Verus (allocator invariant I6)',
-    'level_text': 'Bounded stand-in for Bytecode::new (a loop with a closure capturing two &mut locals and a HashMap: outside Verus; Kani runs out of memory): every opcode form x registers {0,1,N-1} x memory slots x immediates, 1- and 2-op tapes, plus seeded compiled expressions with budgets 3/4/12; markers, opcode table, operand layout, 0xFF immediate flag, counts bounding every index, decoded program == interpreter bitwise. Proved (Verus, C01 unit): every register operand < N <= 255 and every memory operand in N..slot_count, so the reserved register never appears for N <= 255 and slot arithmetic cannot underflow.',
-    'level_note': 'The deciding function Bytecode::new is only explored, hence level exploration. Trusted: the decoder\'s reading of the documented format.',
-    'legs': [leg_bounded('bytecode'), leg_verus('alloc')],
-    'cex': ['alloc_cex'],
-    'explanation': 'exploration with a proved side condition (operand ranges)',
-    'assumptions': ['Input/Output operand layout is the decoder\'s reading of the docs'],
+    'level': 'other',
+    'technique': 'contract-based deductive verification (Verus) of Bytecode::new of fidget-bytecode/src/lib.rs on its real text (its FnMut closure lambda-lifted, std HashMap through the model of vstd), of the closure itself and of From<RegOp> for BytecodeOp; register/memory operand bounds of every emitted RegOp proved in unit alloc (invariant I6); bounded native contract runner with an independent decoder/interpreter for execution equivalence',
+    'level_text': 'Partial: the format clauses are proved, execution equivalence is bounded. Proved for every register budget N and every register tape whose memory operands lie in N.. (what the allocator guarantees: I6): Bytecode::new returns Err exactly when the renaming maps a register of the tape to the reserved register 255; otherwise the word list starts with 0xFFFF_FFFF 0 and ends with 0xFFFF_FFFF 0xFFFF_FFFF, has exactly two words per tape operation in forward order, the first word is the little-endian packing of [opcode, output register, first input, second input] with 0xFF for an immediate or unused byte (Load keeps its register in the output byte and flags the input, Store flags the output byte), the second word is the output/input index, the memory slot relative to the first memory slot, the bits of the f32 immediate, or the unused marker; the opcode byte is the position of the operation name in the public opcode table (enum BytecodeOp, what iter_ops enumerates) by the naming rule of the format documentation - the real From<RegOp> for BytecodeOp is proved against that table; every register byte is below the advertised reg_count, every memory slot below mem_count, no instruction uses the reserved register; no panic (the map lookup, slot + 1 - N, r + 1, try_from(N)).  The encoding spec functions are generated from the RegOp variant list by operand kinds and the naming rule, not from the match in new.  Bounded only: that an independent interpreter following the documentation computes the same outputs as the VM interpreter (contract bytecode: every opcode form x registers {0,1,N-1} x memory slots x immediates, 1- and 2-op tapes, seeded compiled expressions with budgets 3/4/12), and RegTape::repack_map (sort by frequency: iterator chains; stub: an entry for every register mentioned).',
+    'level_note': 'Level other: the deciding encoder is proved against the documented format; "produces the same outputs" quantifies over an interpreter and is a bounded stand-in. Trusted: Verus+Z3; stubs VmData/RegTape (operations in forward order, repack_map has an entry for every register of the tape), uninterpreted le32 (u32::from_le_bytes, through wrapper R-wrap) and f32_bits (f32::to_bits); rewrites R-closure-lift (the closure store_reg becomes a function taking its captures), R-hashindex, R-iter, R-extend-array, R-wrap; the reading of the format documentation in the generated spec functions (operand positions, Load/Store flags, naming rule).',
+    'legs': [leg_verus('bytecode'), leg_bounded('bytecode'), leg_verus('alloc')],
+    'cex': ['bytecode', 'alloc_cex'],
+    'explanation': 'loop invariant: data has 2 + 2k words, the first two are the marker, emitted(data, ops, map, N, j) for j < k (two words per operation), regs_below/no_reserved for j < k against the running reg_count, memory slots below the running mem_count; the closure contract: Ok iff the renamed register is not 255, then word[i] := map[r] and reg_count := max(reg_count, map[r] + 1).',
+    'assumptions': ['memory operands of the tape are in N..u32::MAX (allocator invariant I6, proved in unit alloc; here a precondition)',
+                    'RegTape::repack_map has an entry for every register the tape mentions (stub; bounded contract bytecode runs the real one)',
+                    'execution equivalence with an interpreter is only explored (bounded contract bytecode)'],
 }
 del NOT_APPLICABLE['C15']
 
